@@ -113,7 +113,9 @@ out += ["", "Changes that were missed at first and what was strengthened:", "",
         "  leaves `errno` set is taken for a read error: in a third of the C10 schedules the source returns from successful reads with `errno == EINTR`, as a callback that retried an interrupted read does; a true end of data leaves `errno` alone),",
         "  `C15_r7m2` (RATEMANAGE2_SET accepts a negative damping while no average is set, the deprecated RATEMANAGE_AVG then sets one: the manager walks off the front of the candidate array after ~0.75 s of audio): C15 has a rate-management",
         "  stratum (a third of the three-step cases: 6-16 requests from the six rate-management codes, arguments = what GET reports or a sane draw with 0-2 fields at boundary values, and about a second of audio when management ends up",
-        "  active). The exact combination is still rare: the quick tier does not reach it (0 of 12 000 cases), the thorough tier reports it as `crash:SEGV:vorbis_bitrate_addblock`.",
+        "  active). The exact combination stayed too rare for random scripts in a quick run (thorough: `crash:SEGV:vorbis_bitrate_addblock`), so a deterministic pairwise stratum was added: one field of a RATEMANAGE2_SET argument at one of ten",
+        "  boundary values x one follow-up request of the deprecated interface (none / AVG / HARD / SET) x both three-step set-up calls, 560 combinations enumerated by case id (each visited twice per quick run) and followed by",
+        "  `setup_init` and a second of audio; with it the quick tier reports `C15_r7m2` too.",
         "  `C03_r5m2` (round 5, thorough-only until now) is reported by the quick tier since C03 got a phantom-tail stratum (a link whose last page overstates its length, followed by a link that opens but cannot be decoded) and seek targets",
         "  at and around every link boundary.",
         "<!-- AUTOGEN-END -->"]
